@@ -18,7 +18,7 @@ def standard(pid, tier, level, rule, assumptions, stages, sabotage=(), exhaustiv
                           extra=opts.get("extra"))
         rep.add_tlc(r)
         if family:
-            rep.add_replay(family, replay(family, r.replay, tag, env=replay_env))
+            rep.add_replay(family, replay(family, r.replay, tag, env=replay_env, timeout=opts.get("replay_timeout", 3600)))
     for i, (module, cfg, expected) in enumerate(sabotage):
         rep.add_nonvacuity(tlc_must_violate("%s_ab%d" % (pid.lower(), i), module, cfg, expected, timeout=900))
     return rep
